@@ -310,7 +310,9 @@ func checkImportAliases(c *Ctx, r *Report) {
 				}
 			}, "imports[pkg].Add(name)", nil, false, "every controller contributes its import")
 		ruleEach(c, r, "C09.c", gfi.Key,
-			func(fi *FuncInfo) func(ast.Expr) bool { return w.rangeOverField(fi, "definitions.ControllerMetadata.Routes") }, "controller.Routes",
+			func(fi *FuncInfo) func(ast.Expr) bool {
+				return w.rangeOverField(fi, "definitions.ControllerMetadata.Routes")
+			}, "controller.Routes",
 			func(fi *FuncInfo) func(ast.Node) bool { return w.callPred(fi, ari) }, "appendRouteImports", nil, false, "every route contributes the imports of its parameter and response types")
 	}
 	// UnpackImportsMap emits `alias "path"` for every entry
